@@ -31,9 +31,32 @@ const (
 	killBefore = "kill-before"
 	killAfter  = "kill-after"
 	errInstead = "error-instead"
+	sqlAbort   = "sql-abort" // the k-th ROW written to the headers table makes its SQL statement abort (trigger with RAISE(ABORT))
 )
 
 var kinds = []string{killBefore, killAfter, errInstead}
+
+const (
+	sqlInstall = `
+CREATE TABLE IF NOT EXISTS verif_fault(n INTEGER);
+DELETE FROM verif_fault;
+INSERT INTO verif_fault VALUES (%d);
+CREATE TRIGGER IF NOT EXISTS verif_ins BEFORE INSERT ON headers BEGIN
+  UPDATE verif_fault SET n = n - 1;
+  SELECT RAISE(ABORT, 'verif: injected storage failure') WHERE (SELECT n FROM verif_fault) < 0;
+END;
+CREATE TRIGGER IF NOT EXISTS verif_upd BEFORE UPDATE ON headers BEGIN
+  UPDATE verif_fault SET n = n - 1;
+  SELECT RAISE(ABORT, 'verif: injected storage failure') WHERE (SELECT n FROM verif_fault) < 0;
+END;`
+	sqlRemove = `DROP TRIGGER IF EXISTS verif_ins; DROP TRIGGER IF EXISTS verif_upd; DROP TABLE IF EXISTS verif_fault;`
+)
+
+func sqlRowsLeft(st *rig.Stack) int {
+	var n int
+	_ = st.DB.Get(&n, "SELECT n FROM verif_fault")
+	return n
+}
 
 // faultCtl drives the decorator: counts writes, injects one fault at write index K.
 type faultCtl struct {
@@ -216,6 +239,16 @@ func snapshotDiff(want, got snap.Headers) []string {
 	return ds
 }
 
+func min3(ai, last int) int {
+	switch {
+	case ai == 0:
+		return 0
+	case ai == last:
+		return 2
+	}
+	return 1
+}
+
 func short(h string) string {
 	if len(h) > 10 {
 		return h[len(h)-10:]
@@ -259,7 +292,34 @@ func (e *env) oneFault(caseID string, dir string, hist gen.History, baseline sna
 		defer st.Destroy()
 		var res rig.AddResult
 		var crashed bool
-		acked, crashed, _, res = ingest(st, hist, f)
+		if kind == sqlAbort {
+			// fault INSIDE the SQL layer: the (k+1)-th row written to the headers table aborts its statement, and so does
+			// every later one until the triggers are removed (an I/O error that persists until the restart)
+			f.K = -1
+			if _, err := st.DB.Exec(fmt.Sprintf(sqlInstall, k)); err != nil {
+				r.Violate("harness|sql-fault-install", err.Error(), caseID, nil)
+				return
+			}
+			for _, h := range hist.Hdrs {
+				res = st.Add(h)
+				if res.Panic != nil {
+					crashed = true
+					break
+				}
+				if res.Err == nil {
+					acked = append(acked, h.HashOf().String())
+				} else if c := res.Code(); c != "HeaderAlreadyExists" && c != "BlockRejected" {
+					break // the service reported the storage failure: ingestion stops here (weakest reading)
+				}
+			}
+			f.fired, f.firedOp = true, cell
+			if _, err := st.DB.Exec(sqlRemove); err != nil {
+				r.Violate("harness|sql-fault-remove", err.Error(), caseID, nil)
+				return
+			}
+		} else {
+			acked, crashed, _, res = ingest(st, hist, f)
+		}
 		if crashed {
 			if _, ok := res.Panic.(deco.Crash); !ok {
 				r.Violate("panic-during-ingest|"+kind, fmt.Sprintf("Chains.Add panicked: %v", res.Panic), caseID, detail)
@@ -353,9 +413,11 @@ func (e *env) oneFault(caseID string, dir string, hist gen.History, baseline sna
 }
 
 func body(r *ev.Run) {
-	r.Rule("per history (constructed reorganisations of depth 1..D by equal-work overtaking, heavy sibling, light-then-heavy; branch switches, extensions, orphans, duplicates): the uninterrupted run counts W write calls at the repository interface (AddHeaderToDatabase/UpdateState, each one SQL transaction); then W x {kill-before, kill-after, error-instead} runs, one fault each, followed by restart (database.Init on the same file), invariant checks, and two full redeliveries compared row-for-row with the uninterrupted run. A seeded sample is repeated with a real SIGKILL of a child process. evaluations = fault runs; distinct = distinct structural cells (fault kind x operation and ordinal inside its submission x writes of that submission x first/middle/last submission x history length class x real-or-in-process kill); non-trivial = all (each has a fault).")
+	r.Rule("per history (constructed reorganisations of depth 1..D by equal-work overtaking, heavy sibling, light-then-heavy; branch switches, extensions, orphans, duplicates): the uninterrupted run counts W write calls at the repository interface (AddHeaderToDatabase/UpdateState, each one SQL transaction); then W x {kill-before, kill-after, error-instead} runs, one fault each, plus SQL-level faults (a trigger makes the statement writing the k-th ROW of the headers table abort - every row of multi-row relabel statements, a sample of the single-row ones), followed by restart (database.Init on the same file), invariant checks, and two full redeliveries compared row-for-row with the uninterrupted run. A seeded sample is repeated with a real SIGKILL of a child process. evaluations = fault runs; distinct = distinct structural cells (fault kind x operation and ordinal inside its submission x writes of that submission x first/middle/last submission x history length class x real-or-in-process kill); non-trivial = all (each has a fault).")
 	r.Assume("a write boundary is a call of repository.Headers.AddHeaderToDatabase/UpdateState (each is one committed SQL transaction)", "after an injected write error ingestion stops and the service is restarted (weakest reading)", "SQLite only")
 	r.Require("faults_inside_reorg", 10)
+	r.Require("fault_runs_sql-abort", 50)
+	r.Require("sql_faults_inside_multi_row_statement", 5)
 	mb.ForbiddenHeaders()
 	e := &env{r: r}
 	nHist := r.Pick(90, 1500)
@@ -433,6 +495,38 @@ func body(r *ev.Run) {
 					if kind != errInstead && (k*3+ki+i)%realSample == 0 {
 						e.oneFault(sub+"/sigkill", dir, hist, baseline, k, kind, true, cells[k])
 						r.Case("", false)
+					}
+				}
+			}
+			// SQL-level faults: count the rows written by the uninterrupted run, then abort at every row
+			cst, cerr := rig.New(rig.Options{Dir: dir, Name: "count.db", NoHTTP: true})
+			if cerr == nil {
+				const big = 1 << 30
+				_, _ = cst.DB.Exec(fmt.Sprintf(sqlInstall, big))
+				var rowCells []string
+				for ai, h := range hist.Hdrs {
+					b0 := sqlRowsLeft(cst)
+					cst.Add(h)
+					n := b0 - sqlRowsLeft(cst)
+					for j := 1; j <= n; j++ {
+						rowCells = append(rowCells, fmt.Sprintf("row%d-of-%d|history-len-class=%d|add%d", j, n, len(hist.Hdrs)/8, min3(ai, len(hist.Hdrs)-1)))
+					}
+				}
+				cst.Destroy()
+				stride := 1
+				if len(rowCells) > r.Pick(24, 80) {
+					stride = 1 + len(rowCells)/r.Pick(24, 80)
+				}
+				for k := 0; k < len(rowCells); k++ {
+					multi := strings.Contains(rowCells[k], "-of-") && !strings.Contains(rowCells[k], "-of-1|")
+					if !multi && k%stride != 0 {
+						continue // rows of single-row statements are sampled; every row of a multi-row relabel is used
+					}
+					sub := fmt.Sprintf("%s/row%d/%s", caseID, k, sqlAbort)
+					e.oneFault(sub, dir, hist, baseline, k, sqlAbort, false, rowCells[k])
+					r.Case("", false)
+					if multi {
+						r.Count("sql_faults_inside_multi_row_statement", 1)
 					}
 				}
 			}
